@@ -13,6 +13,11 @@
 # them, nesting depth 2 (3 in the thorough tier)) inside Fetch responses, with the compression oracle recorded from
 # the real gzip calls (codec_lib.Recorder), and a hostile stream (truncations, mutations, nulls where the grammar
 # has none, hostile counts) that is compared with the model only.
+# TWO TIES (DESIGN.md 10.2b): besides the correspondence above (tie B) the SOURCE of the 15 response decoders and of the
+# 5 readers of _util.py is translated on every run by harness/py2dsl.py into terms of two small deep-embedded languages
+# (coq/Model/DecDSL.v, coq/Model/ReadDSL.v) and the soundness theorems "interpreting the translated source = the
+# hand-written model" (coq/Props/C05gen.v) are re-checked against that translation (harness/decdsl_tie.py, tie A).
+# A decoder the translator refuses, or whose term changed, has tie A down: recorded, sample enlarged, never an alarm alone.
 # Also: the encoder steps of afkak (_encode_message_set, create_gzip_message) against Model.MsgSet through the runner
 # `codec` (they are what the theorems C05_afkak_* / C05_producer_* speak about), and the compression round-trip law
 # (the hypothesis of the message-set theorems) observed on the real afkak.codec.gzip_encode / gzip_decode.
@@ -692,7 +697,8 @@ DECODER_API = {"get_response_correlation_id": "corr", "decode_api_versions_respo
 
 def translator_tie(ck):
     """Two-ties rule (DESIGN.md 10.2b).  Tie (A): harness/py2dsl.py translates the source of every response decoder of
-    THIS run into a term of the decoder language Model/DecDSL.v; for the decoders that have a soundness theorem
+    THIS run into a term of the decoder language Model/DecDSL.v (and the readers of _util.py into the reader language
+    Model/ReadDSL.v); for the decoders that have a soundness theorem
     (Proofs/DecDSLSound.v: interpreting the term = the hand-written model) the theorem is re-checked against the run's own
     translation in a scratch directory.  A decoder the translator refuses, or whose translation is no longer the term the
     theorem was proved for, has tie (A) DOWN: recorded, never a violation by itself - tie (B), the correspondence, then
@@ -700,7 +706,7 @@ def translator_tie(ck):
     import decdsl_tie
     r = decdsl_tie.tie(vlib.REPO)
     ck.cov["translator_tie"] = {"per_decoder": r["decoders"], "scratch_dir": os.path.relpath(r["dir"], vlib.ROOT) if r["dir"] else None,
-                                "log": r["log"][-1500:]}
+                                "log": r["log"][-1500:], "scratch_result_reused": bool(r.get("cached"))}
     ck.cov["obligations"] += r["obligations"]
     ck.cov["discharged"] += r["discharged"]
     ck.cov["theorems"] += r["theorems"]
@@ -715,7 +721,10 @@ def translator_tie(ck):
     ck.cov["translator_tie"]["down"] = down
     for k in intact:
         ck.hist("translator_tie_intact")
-    return {DECODER_API[k] for k in down if k in DECODER_API}
+    apis = {DECODER_API[k] for k in down if k in DECODER_API}
+    if any(k.startswith("util_") for k in down):      # a primitive reader every decoder uses
+        apis |= set(DECODER_API.values())
+    return apis
 
 
 def correspond_chunks(ck, model, module, cases, impl, label, nontrivial, describe, chunk=3000):
@@ -962,6 +971,24 @@ def run(ck):
         abs_log = [(1000 + j, k[2]) for j, k in enumerate(kids)] + [(1000 + nmsg, trees[1][2])]
         want_log = [len(abs_log)] + sum(([o] + kmsg_ints(m) for o, m in abs_log), []) + [0]
         add("fetch", r, 2, None, expected("fetch", r, 2, lambda rec: want_log), label="fetch_large_gzip_batch_magic%d" % mg)
+    # multi-member gzip streams (RFC 1952 allows a wrapper value to be several gzip members back to back; a decoder that
+    # stops after the first member silently loses the later messages): the inner set is split at arbitrary byte positions
+    def multi_member(inner):
+        if len(inner) < 2:
+            return KS.gzip_compress(inner)
+        cuts = sorted(rnd.sample(range(1, len(inner)), min(rnd.randint(1, 3), len(inner) - 1)))
+        return b"".join(KS.gzip_compress(inner[a:b]) for a, b in zip([0] + cuts, cuts + [len(inner)]))
+    for i in range(8 * scale):
+        mg = i % 2
+        n = rnd.randint(2, 6)
+        base = rnd.choice([0, 50, 2 ** 33])
+        kids = [("leaf", j if mg == 1 else base + j, g_kmsg(g, mg)) for j in range(n)]
+        trees = [("wrap", base + n - 1, mg, 1, 0, None, kids), ("leaf", base + n, g_kmsg(g, mg))]
+        data = KS.enc_kforest(trees, gz=multi_member)
+        abs_log = [(base + j, k[2]) for j, k in enumerate(kids)] + [(base + n, trees[1][2])]
+        want_log = [len(abs_log)] + sum(([o] + kmsg_ints(m) for o, m in abs_log), []) + [0]
+        r = fetch_with([data], 2)
+        add("fetch", r, 2, None, expected("fetch", r, 2, lambda rec: want_log), label="fetch_multi_member_gzip_magic%d" % mg)
     # the same responses consumed differently: outer generator exhausted first, .messages drained later in reverse order
     late = 0
     for i, (api, ver, data, want, label) in enumerate(dec_meta):
@@ -1018,7 +1045,9 @@ def run(ck):
             x = [CL.rbytes(rnd, 16383), CL.rbytes(rnd, 16385), CL.rbytes(rnd, 65536), CL.rbytes(rnd, 1 << 20),
                  bytes(1 << 20), CL.rbytes(rnd, 100) * 700][i]
         z = real_gzip_encode(x)
-        ok = isinstance(z, bytes) and real_gzip_decode(z) == x and real_gzip_decode(KS.gzip_compress(x)) == x
+        h = len(x) // 2
+        ok = (isinstance(z, bytes) and real_gzip_decode(z) == x and real_gzip_decode(KS.gzip_compress(x)) == x
+              and real_gzip_decode(KS.gzip_compress(x[:h]) + KS.gzip_compress(x[h:])) == x)        # two members
         law += 1
         if not ok:
             ck.violation({"kind": "compression round-trip law (hypothesis of C05_msgset_roundtrip / C05_afkak_gzip_roundtrip) fails on the real gzip codec",
